@@ -1003,6 +1003,10 @@ def policy(repo, tier):
     # after mkdtemp): an unrecognised shape is `unknown` -- the native probes (damaged archives, abandoned generators) decide
     G("C15/package/typestate#every-handle-opened-by-own-code-is-closed-on-all-paths", not bad and n_sites >= 10, "; ".join(bad[:6]) or f"{n_sites} open sites", "package",
       definite=False)
+    # H15 (round 6): scratch files live in a location allocated for the call (contracts/c15_fs.py: anchor flow of every written path)
+    from contracts import c15_fs
+    skip_fs = {k_ for k_ in an.fns if k_[0] in script_mods and not O.callers(an).get(k_)}
+    obls.append(c15_fs.obligation(an, ground_obligation, skip_fs))
     return {"obligations": obls, "functions": fns}
 
 
